@@ -168,6 +168,15 @@ def check_optional(program, rep):
             else:
                 why = (f'`{p}` falls back to self.{p} without an identity '
                        'test against None')
+        elif len(assigns) == 1 and isinstance(assigns[0], ast.Assign) \
+                and isinstance(assigns[0].value, ast.IfExp) and norm(
+                    assigns[0].value.test) in (f'{p} is None',
+                                               f'{p} is not None'):
+            v = assigns[0].value
+            a_, b_ = (v.body, v.orelse) if norm(v.test) == f'{p} is None' \
+                else (v.orelse, v.body)
+            ok = norm(a_) == f'self.{p}' and norm(b_) == p
+            why = f'`{p}` is rebound by "{norm(assigns[0])}"'
         elif assigns:
             why = (f'`{p}` is rebound by "{norm(assigns[0])}": a falsy value '
                    '(False, "") given per call is taken for "not given" and '
@@ -459,3 +468,12 @@ def run(program, rep, tier):
     check_optional(program, rep)
     check_forward(program, rep)
     check_body(program, rep)
+    # the older handle stays retrievable beneath the new one, directories
+    # replace handles of the same name in every layer (C11 rules)
+    from rules import c11
+    n0 = len(rep.obs)
+    c11.check_setitem(program, rep)
+    c11.check_chainmap(program, rep)
+    for o in rep.obs[n0:]:
+        o.rule = o.rule.replace('C11.', 'C16.layers-')
+
